@@ -2,7 +2,7 @@ import DadiVerif.Lemmas.FileFormat
 /-!
 # C14: the written text seen as lines, and what the readers make of each line
 
-`toFile_eq_lines` / `arrayToFile_eq_lines` rewrite the GENERATED writers (Generated/FileIO.lean, translated statement by
+`C14_writer_lines` / `C14_array_writer_lines` (in Props/C14.lean) rewrite the GENERATED writers (Generated/FileIO.lean, translated statement by
 statement from `Spectrum.to_file` / `Numerics.array_to_file`) as a list of `\n`-terminated lines; the remaining lemmas
 evaluate the hand-written reader model on these lines.
 -/
